@@ -376,10 +376,18 @@ class Ctx:
         self.nest_limit = 2
         self.main = None
         regs = [s["name"] for s in sh["states"] if s["kind"] != "default"]
-        self.menu = [("none",)] + [("ns", n) for n in regs] + [("nsn", n) for n in regs] + [("done",), ("eng",)]
         # a state may end the run and still ask for a transition in the same call (the explicitly requested state stays
-        # selected: it is where the next engage() starts)
-        self.menu += [("done+ns", n) for n in regs] + [("done+nsn", n) for n in regs]
+        # selected: it is where the next engage() starts), or call engage() itself
+        comp = [("done+ns", n) for n in regs] + [("done+nsn", n) for n in regs]
+        self.menu = [("none",)] + [("ns", n) for n in regs] + [("nsn", n) for n in regs] + [("done",)]
+        if sh["auto"]:
+            self.menu += comp
+            self.rich = [("eng",)]
+        else:
+            self.rich = [("eng",)] + comp
+        # Under a deviation bound the newer ("rich") actions are explored as the *only* in-state deviation of an execution:
+        # they are offered while no deviation has been taken yet and use up the whole budget.  Without a bound (merged BFS)
+        # they are ordinary alternatives at every state-function call.
         self.kinds = {s["name"]: s["kind"] for s in sh["states"]}
 
     def on_done(self, sm):
@@ -393,10 +401,14 @@ class Ctx:
         self.events.append(("call", nm, tag, {k: (F(v) if k != "initial_call" else v) for k, v in kw.items()}))
         can = self.allow_actions and self.kinds[nm] != "default" and self.depth < self.nest_limit and (self.maxdev is None or self.dev < self.maxdev)
         menu = self.menu if can else self.menu[:1]
+        if can and (self.maxdev is None or self.dev == 0):
+            menu = menu + self.rich
         c = self.ch.choose(len(menu), "act@" + nm, dev=True)
         a = menu[c]
         if a[0] != "none":
             self.dev += 1
+            if self.maxdev is not None and a in self.rich:
+                self.dev = max(self.dev, self.maxdev)
         self.acts.append(a)
         if a[0] == "ns":
             sm.next_state(a[1])
